@@ -108,8 +108,8 @@ def clean_table(rnd, **kw):
     """shapes the unchanged tree bootstraps correctly (so that histories get explored)"""
     table = CT.gen_table(rnd, **kw)
     for o in table:
-        if o["type"] == CT.PORTLINES and len(o["init"]) > 1:
-            o["init"] = o["init"][:1]
+        if o["type"] == CT.PORTLINES and len(o["init"]) != 1:
+            o["init"] = (o["init"] or CT.gen_values(rnd, CT.PORTLINES, "single"))[:1]
         if o["type"] in (CT.PORTLINES, CT.LINELIST) and o["default"] is not None and len(o["default"]) < 2:
             o["default"] = None
     return table
